@@ -191,6 +191,8 @@ class PropertyCheck:
 
     def corpus(self) -> list[Scenario]:
         res = []
+        if os.environ.get("VERIF_NO_CORPUS"):      # only used while (re)building the corpus itself
+            return res
         d = os.path.join(VERIF, "corpus", self.ID)
         if os.path.isdir(d):
             for fn in sorted(os.listdir(d)):
@@ -198,6 +200,13 @@ class PropertyCheck:
                     with open(os.path.join(d, fn), encoding="utf-8") as f:
                         lines = [l.rstrip("\n") for l in f if l.strip() and not l.startswith("#")]
                     res.append(Scenario(lines, {"corpus": fn}))
+                elif fn.endswith(".json"):
+                    # a minimised failing input of a seeded change (scenario lines + the meta its oracle needs)
+                    with open(os.path.join(d, fn), encoding="utf-8") as f:
+                        payload = json.load(f)
+                    meta = dict(payload.get("meta", {}))
+                    meta["corpus"] = fn
+                    res.append(Scenario(list(payload["lines"]), meta))
         return res
 
     def distribution(self, scenario: Scenario, outs: list[str], counters: dict):
@@ -290,9 +299,16 @@ class PropertyCheck:
         return any(f.site == site for f in pool)
 
     def shrink(self, failure: Failure, budget: int = 150) -> Failure:
+        if os.environ.get("VERIF_NO_SHRINK"):      # corpus building keeps the scenario as generated (well-formed)
+            return failure
         scn = failure.scenario
         lines = list(scn.lines[: failure.index + 1])
-        protected = lambda l: l.startswith(("new", "inst"))  # noqa: E731
+        # only EVENT lines are candidates for removal: set-up lines, markers and the probes the oracles key on stay, so that a
+        # reduced scenario is still a well-formed scenario of the property's slice (a reduction that makes the oracle fail
+        # for another reason would not be a replay of this failure)
+        removable = ("disp ", "estep ", "eauto ", "mauto ", "edisp ", "rule ", "scores ", "flt ", "q ", "unsub ", "resub ",
+                     "cog", "solve ", "eq", "frames ", "fname ", "bars", "ticks ", "graph ", "gen ", "jobseq ", "cpsolve")
+        protected = lambda l: not l.startswith(removable)  # noqa: E731
         changed = True
         tries = 0
         while changed and tries < budget:
